@@ -961,29 +961,35 @@ def run_c15(ctx):
             nontrivial = len(st['visited']) > len(st['job']) + sum(1 for x in graph['rel'] if x['i'] in st['job']) or rejected
             n_graphs += 1
             failed = set()
-            for via in COLLECT_VIAS:
+            spellings = job_spellings(sorted(st['job']))
+            if n <= 3:
                 # every spelling of the job set through the real entry point; the plain one and one with a repetition
                 # through build_graphs and through the two parts called separately
-                for spelling, job in job_spellings(sorted(st['job'])):
-                    if (via != 'collect_tasks' or n > 3) and spelling in ('/reversed', '/listed-three-times'):
-                        continue
-                    case = dict(graph, job=job, via=via)
-                    obs = collector.collect(graph_tasks(graph), job, via)
-                    n_collect += 1
-                    problems = []
-                    if obs['returned'] and obs['collected'] != closure:
-                        problems.append('Closure')
-                    if obs['rejected'] != rejected:
-                        problems.append('Unique')
-                    if problems and not (via == 'build_graphs' and spelling in failed):      # (build_graphs calls collect_tasks)
+                plan = [(via, sp) for via in COLLECT_VIAS for sp in spellings if via == 'collect_tasks' or sp[0] in ('', '/listed-twice')]
+            else:
+                # (the large configuration: one spelling, in rotation, through the real entry point and through the parts,
+                # every fourth case through build_graphs too)
+                plan = [('collect_tasks', spellings[n_graphs % 4])] + ([('build_graphs', spellings[n_graphs % 4])] if n_graphs % 4 == 1 else [])
+                plan.append(('parts', spellings[(n_graphs // 4) % 4]))
+            for via, (spelling, job) in plan:
+                case = dict(graph, job=job, via=via)
+                obs = collector.collect(graph_tasks(graph), job, via)
+                n_collect += 1
+                problems = []
+                if obs['returned'] and obs['collected'] != closure:
+                    problems.append('Closure')
+                if obs['rejected'] != rejected:
+                    problems.append('Unique')
+                if problems and not (via == 'build_graphs' and spelling in failed):      # (build_graphs calls collect_tasks)
+                    if via == 'collect_tasks':
                         failed.add(spelling)
-                        ctx.violation(collect_key(problems, case, obs), 'job %s of the tasks named %s with dependencies %s through %s: observed %s; '
-                                      'Factory.tla: closure %s rejected %s' % (job, names, graph['rel'], via, obs, closure, rejected),
-                                      case, module='conf_factory')
-                    if nontrivial and via == 'collect_tasks':
-                        ctx.distinct(('collect', st['rel'], st['tname'], tuple(job)))
-                    if n_collect % 9973 == 1:
-                        ctx.sample(dict(case=case, observed=obs, closure=closure, rejected=rejected))
+                    ctx.violation(collect_key(problems, case, obs), 'job %s of the tasks named %s with dependencies %s through %s: observed %s; '
+                                  'Factory.tla: closure %s rejected %s' % (job, names, graph['rel'], via, obs, closure, rejected),
+                                  case, module='conf_factory')
+                if nontrivial and via == 'collect_tasks':
+                    ctx.distinct(('collect', st['rel'], st['tname'], tuple(job)))
+                if n_collect % 9973 == 1:
+                    ctx.sample(dict(case=case, observed=obs, closure=closure, rejected=rejected))
         os.remove(dump + '.dump')
     ctx.count(evaluations=n_collect, traces=n_collect)
     dbg('closure cases replayed: %d graphs x jobs, %d collections' % (n_graphs, n_collect))
